@@ -499,6 +499,8 @@ class UnionMetaType(StructureMetaType):
             result = {}
             sizes = {}
             buf = stream.read(cls.size)
+            if len(buf) != cls.size:
+                raise EOFError(f"Read {len(buf)} bytes, but expected {cls.size}")
 
         # Create the object and set the values
         # Using type.__call__ directly calls the __init__ method of the class
